@@ -359,7 +359,8 @@ func (p *path) addRule(
 		if y.desc.FullName() != desc.FullName() {
 			return fmt.Errorf("duplicate rule %v", rule)
 		}
-		return nil // Method already registered.
+		// Method already registered, its additional bindings may not be.
+		return p.addAdditionalBindings(rule, desc, name)
 	}
 
 	m := &method{
@@ -396,6 +397,14 @@ func (p *path) addRule(
 		cursor.methods[verb] = m
 	}
 
+	return p.addAdditionalBindings(rule, desc, name)
+}
+
+func (p *path) addAdditionalBindings(
+	rule *annotations.HttpRule,
+	desc protoreflect.MethodDescriptor,
+	name string,
+) error {
 	for _, addRule := range rule.AdditionalBindings {
 		if len(addRule.AdditionalBindings) != 0 {
 			return fmt.Errorf("nested rules") // TODO: errors...
